@@ -412,3 +412,29 @@ Definition replay_ok (cfg : config) (recorded witness : list label) (o : outcome
   | Some s => match outcome_of_state s with Some o' => outcome_eqb o' o | None => false end
   | None => false
   end.
+
+(* ------------------------------------------------------------------------------------------------ *)
+(* Reachable states: any finite sequence of enabled steps from the initial state (any interleaving). *)
+
+Inductive reachable (cfg : config) : state -> Prop :=
+| R_init : reachable cfg (init cfg)
+| R_step : forall s l s', reachable cfg s -> exec cfg s l = Some s' -> reachable cfg s'.
+
+(* pool_size = min(parallel, len(ids)) with parallel >= 1: no worker only if nothing was submitted *)
+Definition wf_cfg (cfg : config) : bool :=
+  match c_ids cfg with [] => true | _ => negb (Nat.eqb (c_pool cfg) 0) end.
+
+(* where a submitted id can be *)
+Definition got_list (g : option result) : list result := match g with Some r => [r] | None => [] end.
+Definition outbox_results (l : list worker) : list result := flat_map w_out l.
+Definition busy_ids (l : list worker) : list nat :=
+  flat_map (fun w => match w_st w with Busy i => [i] | _ => [] end) l.
+Definition pending_ids (q : list task) : list nat :=
+  flat_map (fun t => match t with Inv i => [i] | Stop => [] end) q.
+
+(* results that left a worker's task function and have not been handed to the caller *)
+Definition in_flight (s : state) : list result := got_list (got s) ++ doneq s ++ outbox_results (ws s).
+
+(* delivered (+) in flight (+) busy (+) pending *)
+Definition accounted (s : state) : list nat :=
+  map fst (delivered s) ++ map fst (in_flight s) ++ busy_ids (ws s) ++ pending_ids (taskq s).
